@@ -32,6 +32,12 @@ CHECKS = {
  "C11": dict(level="model_checking", technique="bounded exhaustive enumeration of rule sets / mode graphs (nullable rules and accumulating fragments included); per spec explicit-state BFS of all reachable configurations of the real state machine with an exact livelock search (all input lengths), plus all byte strings up to a bound lexed to EOF by the real driver with a tiling oracle",
    text="For every enumerated specification every reachable configuration of the real state machine is visited and, for every pending rune, non-consuming answers are followed until they consume, end, or provably repeat (livelock). All short byte strings are then lexed to EOF by the real simplelexer with a recorder: token texts, discarded stretches and error stretches must tile the input exactly once, in order.",
    note="Trusted: the reconstruction of error stretches from the reference driver's skip-to-next-line behaviour. No reference lexer semantics is involved.", ref="DESIGN.md section C11"),
+ "C10": dict(level="model_checking", technique="read-back of the emitted integer tables by their documented row format; structural checks; state-by-state equality with the automaton objects; per lexer spec explicit-state BFS over the product (real state machine on the emitted table) x (reference automaton of the rules) = equivalence over all strings",
+   text="For every specification of the enumerated families the emitted _lexerModeN tables are decoded independently, checked for structure, compared edge by edge with the DFA object they were emitted from, and the real PushRune running on them is searched in product with the reference automaton of the rules, so subset construction, partition refinement and range merging are shown to change nothing observable for all strings. Parser arrays are decoded and compared entry for entry with the automaton object.",
+   note="Trusted: internal/lexref, the row-format decoder in internal/px/decode.go and cmd/loxmc/c10.go.", ref="DESIGN.md section C10"),
+ "C15": dict(level="exploration", technique="exhaustive small-scope enumeration of range lists over a universe embedded at both ends of the code space (rang3 vs own interval arithmetic), and of class expressions/literals written as lox text, decided on the emitted tables by the product search",
+   text="Flatten/Normalize/Subtract agree with independent interval arithmetic on every list of the small universe (sorted, disjoint, same set, exact partition); every enumerated class expression and literal, through the real front end and generator, matches exactly the code points of its set-theoretic meaning at both end points and a middle point of every atom; overlapping classes in one mode keep their meaning after splitting and merging.",
+   note="Trusted: internal/ivl. Bounded by list length and the boundary-point menus.", ref="DESIGN.md section C15"),
 }
 
 NA_REASON = "check not built yet (work in progress; see DESIGN.md for the plan)"
